@@ -91,6 +91,9 @@ def generate_remote(rng, tier, idx):
                 ops[-1]["gc"] = True
         elif r < 0.78:
             ops.append({"op": "cd_access", "attr": attr, "fault": pick(rng, NET_FAULTS), "nth": pick(rng, [0, 0, 1, 1, 2])})
+            if rng.random() < 0.3:
+                # a second request of the same access fails too (both probes lost; a probe and the transfer)
+                ops[-1]["more"] = [[pick(rng, NET_FAULTS), pick(rng, [0, 1, 2, 3])]]
         elif r < 0.87:
             lay = pick(rng, layouts)
             name, kind = pick(rng, NAMES[attr])
